@@ -105,8 +105,16 @@ def gen_batch(seed):
     fix = rng.random() < 0.45
     files, meta = [], []
     dirs = ["src", "src", "src/a", "rtl"]
+    taken = set()
     for i in range(k):
         name = "%s/f%d.vhd" % (rng.choice(dirs), i)
+        if files and rng.random() < 0.25:
+            # the same base name in another directory (anything keyed by basename collides)
+            other = rng.choice(files)[0]
+            cand = "%s/%s" % (rng.choice([d for d in dirs if d != os.path.dirname(other)] or dirs), os.path.basename(other))
+            if cand not in taken:
+                name = cand
+        taken.add(name)
         r = rng.random()
         if r < 0.07:
             label, data, tags = "bad", rng.choice(workload.BAD_VHDL), ["unparseable"]
